@@ -158,6 +158,10 @@ func CallGoMethodFunction(env *Zlisp, name string, args []Sexp) (Sexp, error) {
 			case rune:
 				r = append(r, &SexpChar{Val: e})
 			default:
+				if out[i].Kind() == reflect.Ptr && out[i].IsNil() {
+					r = append(r, SexpNull)
+					continue
+				}
 				// go through the type registry
 				found := false
 				for _, hashName := range ListRegisteredTypes {
